@@ -21,9 +21,15 @@ type Control struct {
 	File     string // relative to repo
 	Old, New string
 	Edits    [][2]string // additional replacements in the same file
+	More     []fileEdits // replacements in further files
 	Negative bool
 	Expect   string // substring expected in the key (rule/construct) of a new violation
 	Why      string
+}
+
+type fileEdits struct {
+	File  string      `json:"file"`
+	Edits [][2]string `json:"edits"`
 }
 
 type ControlResult struct {
@@ -43,6 +49,7 @@ type jsonControl struct {
 	Props    []string    `json:"props"`
 	File     string      `json:"file"`
 	Edits    [][2]string `json:"edits"`
+	More     []fileEdits `json:"more"`
 	Negative bool        `json:"negative"`
 	Expect   string      `json:"expect"`
 	Why      string      `json:"why"`
@@ -68,7 +75,7 @@ func loadJSONControls(verifDir string) {
 			fmt.Fprintf(os.Stderr, "control file %s unreadable: %v\n", f, err)
 			continue
 		}
-		controls = append(controls, Control{Name: jc.Name, Props: jc.Props, File: jc.File, Old: jc.Edits[0][0], New: jc.Edits[0][1], Edits: jc.Edits[1:], Negative: jc.Negative, Expect: jc.Expect, Why: jc.Why})
+		controls = append(controls, Control{Name: jc.Name, Props: jc.Props, File: jc.File, Old: jc.Edits[0][0], New: jc.Edits[0][1], Edits: jc.Edits[1:], More: jc.More, Negative: jc.Negative, Expect: jc.Expect, Why: jc.Why})
 	}
 }
 
@@ -119,6 +126,24 @@ func runControls(repo, prop string) []ControlResult {
 			}
 			text = strings.Replace(text, e[0], e[1], 1)
 		}
+		overlay := map[string][]byte{path: []byte(text)}
+		for _, fe := range ct.More {
+			p2 := filepath.Join(repo, fe.File)
+			b2, err := os.ReadFile(p2)
+			if err != nil {
+				skip = true
+				break
+			}
+			t2 := string(b2)
+			for _, e := range fe.Edits {
+				if strings.Count(t2, e[0]) < 1 {
+					skip = true
+					break
+				}
+				t2 = strings.Replace(t2, e[0], e[1], 1)
+			}
+			overlay[p2] = []byte(t2)
+		}
 		if skip {
 			res.Skipped, res.Detail = true, "anchor text not present in current tree"
 			out = append(out, res)
@@ -135,7 +160,7 @@ func runControls(repo, prop string) []ControlResult {
 			pf(c0)
 			base = nonOKKeys(c0)
 		}
-		p, err := Load(LoadOpts{Repo: repo, Overlay: map[string][]byte{path: []byte(text)}})
+		p, err := Load(LoadOpts{Repo: repo, Overlay: overlay})
 		if err != nil {
 			res.Detail = "mutant does not load: " + err.Error()
 			out = append(out, res)
